@@ -415,7 +415,7 @@ pub fn server_malformed_wires(cfg: &Cfg, dgram: bool, target: &Addr, now: u64, r
 
 fn fresh_server(cfg: &Cfg) -> Option<AnyDec> {
     let sh = real::server_shared(cfg).ok()?;
-    Some(real::any_server(real::server_codec(cfg, &sh).ok()?))
+    Some(real::any_server_answering(real::server_codec(cfg, &sh).ok()?))
 }
 
 fn authenticated_malformed(seed: u64, i: u64, cfg: &Cfg, role: Role, target: &Addr, now: u64, rng: &mut Rng, rep: &mut Report, decoder: &str) {
